@@ -33,6 +33,14 @@ def jobs_for(tier, rng):
             job["injects"] = [{"v": gen.rand_values(rng, ns, vmax=4, exp=0),
                                "policy": [rng.randrange(na) for _ in range(ns)]} for _ in range(4)]
         jobs.append(job)
+    # LARGE state spaces (> 20000 states per changed state): improvement steps that change one or two states out of
+    # tens of thousands must not count as stability.  The trace is reduced exactly (solver_worker.quotient).
+    big = [(20100, [3])] if tier == "quick" else [(20100, [3]), (20001, [2]), (40200, [3, 2]), (65600, [2, 2, 3])]
+    for N, lengths in big:
+        jobs.append({"mdp": gen.corridors(rng, N, lengths), "kind": "PI", "gamma": [1, 2], "eps": [1, 2],
+                     "test": rng.choice(["span", "max_diff"]), "reset": False, "max_eval_iter": rng.choice([2, 40]),
+                     "mbs": rng.choice([1024, 4096]), "calls": [max(lengths) + 4], "cert": False, "quotient": True,
+                     "tag": f"corridors{N}"})
     return jobs
 
 
